@@ -39,6 +39,11 @@ Structural necessary conditions decided on the resolved program (never behaviour
  P1 add-to-queue pushes the promise's future and fulfils the same promise on every path; end-of-data pushes a
     default-constructed value
 
+Refactoring robustness: helpers of the same class are treated as inlined (end-of-data / forwarding / header-exception calls,
+close()/status stores in handlers, queue pop / future get behind a private helper, shutdown and join behind helpers of
+close(), the read loop in a helper of the thread function); named locals are looked through (current_exception(),
+get_future(), a boolean gate variable instead of `break`); guards may be early returns, else-branches or loop conditions.
+
 NOT decided (dropped clauses, see DESIGN 5/C07 "not decided"): absence of deadlock for all interleavings, fd/thread leak
 counts, which error is "first"; that allocation failure / thread-creation failure before a stage's try block cannot
 happen (outside the fault model); exceptions thrown inside std / protozero / expat bodies other than the documented
